@@ -82,9 +82,9 @@ pub fn expected_hover(doc: &Doc, o: &Occ) -> Option<Vec<String>> {
             EntKind::Var => t - 1,
         };
         if doc.gaps.contains(&first) {
-            frags.push(format!("doc{}$", first));
-            if doc.layout == crate::gen::layout::Layout::Lines {
-                frags.push(format!("second{}$", first));
+            // the texts of the comment lines of that gap, as rendered
+            for (_, _, _, line) in doc.r.comments.iter().filter(|c| c.0 == first) {
+                frags.push(line.trim().to_string());
             }
         }
     }
